@@ -269,8 +269,23 @@ Definition parse_case (l : list tok) : option case :=
   | _ => None
   end.
 
+(* independence probe (harness/c13_purity.cc, ThreadSanitizer build): PURITY <scenario> <threads> <rounds> <iters>.
+   A run-time probe, not part of the model: the model's answer is "PURE", the SPEC reads the probe's verdict. *)
+Definition is_purity (l : list tok) : bool :=
+  match l with [t; TZ _; TZ _; TZ _; TZ _] => is_tag "PURITY" t | _ => false end.
+Definition spec_purity (obs : list tok) : list tok :=
+  match obs with
+  | [t] => if is_tag "PURE" t then [] else if is_tag "HANG" t then fail "purity:hang" else fail "obs:unparsable"
+  | t :: _ => if is_tag "RACE" t then fail "purity:data_race"
+              else if is_tag "DIFFERS" t then fail "purity:result_differs"
+              else if is_tag "HARNESSRACE" t then fail "harness:probe_race"
+              else if is_tag "CRASH" t then fail "purity:crash"
+              else fail "obs:unparsable"
+  | [] => fail "obs:unparsable"
+  end.
+
 Definition run_model (l : list tok) : list tok :=
-  match parse_case l with Some k => run_case k | None => bad_case end.
+  match parse_case l with Some k => run_case k | None => if is_purity l then [tag "PURE"] else bad_case end.
 
 (* ------------------------------------------------------------------ branch tag for coverage accounting *)
 Definition op_tag (o : lop) : string :=
@@ -283,7 +298,7 @@ Definition op_tag (o : lop) : string :=
 Definition has_op (s : string) (ops : list lop) : bool := existsb (fun o => String.eqb (op_tag o) s) ops.
 Definition run_tag (l : list tok) : list tok :=
   match parse_case l with
-  | None => bad_case
+  | None => if is_purity l then [tag "purity"] else bad_case
   | Some k =>
       match run_case k with
       | [t] => if is_tag "ILL" t then [tag "ill"] else [tag "odd"]
@@ -300,4 +315,4 @@ Definition run_tag (l : list tok) : list tok :=
   end.
 
 Definition run_spec (l obs : list tok) : list tok :=
-  match parse_case l with Some k => check_case k obs | None => bad_case end.
+  match parse_case l with Some k => check_case k obs | None => if is_purity l then spec_purity obs else bad_case end.
